@@ -1,4 +1,5 @@
 import PokerVerif.Lemmas.SMRotate
+import PokerVerif.Lemmas.SMReach
 /-!
 # C04 — Button and blinds move by the dead-button rule for every history
 
@@ -97,6 +98,37 @@ theorem C04_ring (st : State) (hbb0 : 0 ≤ st.bb) (hbbn : st.bb < st.maxSeat)
           (Int.ofNat j) (by simp) (by simp; omega) hjne haj
         simp only [ringSeats, hu, huDealer] at hex ⊢
         simp [← hspec, hex]
+
+/-- **C04 — for every history**: in every state the seat manager can reach from `NewSeatManager` by any sequence of its
+public operations (arrivals by fixed and random seat, departures, sit-ins, has-chips updates, `InitPositions`,
+any number of rotations — the recorded random first seat being a legal draw), an accepted rotation under the default
+rule puts the big blind on a dealt-in player, on the next seated-in player with chips clockwise; with exactly two dealt
+in, dealer and small blind are the other player; with three or more, SB / dealer take the previous BB / SB seats.  (The
+hypothesis "the old big-blind seat is a seat of the table" of the theorems above holds in every reachable state:
+`runOps_bbok`.) -/
+theorem C04_for_every_history (n : Nat) (ops : List Op) (hl : OpsLegal (State.new n .default) ops)
+    (hinit : (runOps (State.new n .default) ops).isInit = true)
+    (hok : (rotateDefault (runOps (State.new n .default) ops)).2 = .ok) :
+    bbDealtIn (rotateDefault (runOps (State.new n .default) ops)).1 = true ∧
+    bbNext (runOps (State.new n .default) ops) (rotateDefault (runOps (State.new n .default) ops)).1 = true ∧
+    (dealtIn (rotateDefault (runOps (State.new n .default) ops)).1 = 2 →
+      huSeats (rotateDefault (runOps (State.new n .default) ops)).1 = true) ∧
+    (3 ≤ dealtIn (rotateDefault (runOps (State.new n .default) ops)).1 →
+      ringSeats (runOps (State.new n .default) ops) (rotateDefault (runOps (State.new n .default) ops)).1 = true) := by
+  have hrule : (runOps (State.new n .default) ops).rule = .default := by rw [runOps_rule]; rfl
+  obtain ⟨hb0, hbn⟩ := runOps_bbok _ ops (new_bbok n .default) hl hrule hinit
+  exact ⟨C04_bb_dealt_in _ hb0 hbn hok, C04_bb_next _ hb0 hbn hok, C04_hu _ hb0 hbn hok, C04_ring _ hb0 hbn hok⟩
+
+-- non-vacuity of `C04_for_every_history`: four arrivals (fixed and random seats), three sit in, positions are drawn, a
+-- rotation, a bust, a late sit-in — a legal history after which positions are set and the next rotation is accepted
+def exOps : List Op :=
+  [.assign [(1, 0), (2, 2)], .randomAssign [3, 4] [4, 5], .join [1, 2, 3], .init (some 2), .rotate,
+   .setChips 2 false, .join [4], .rotate]
+
+example : OpsLegal (State.new 6 .default) exOps ∧ (runOps (State.new 6 .default) exOps).isInit = true ∧
+    (rotateDefault (runOps (State.new 6 .default) exOps)).2 = .ok := by
+  simp only [exOps, OpsLegal, OpLegal, stepOp, and_true, true_and]
+  decide
 
 /-- **C04 — a refused rotation moves no button seat.** -/
 theorem C04_refused_moves_nothing (st : State) (hr : (rotateDefault st).2 ≠ .ok) :
